@@ -45,14 +45,58 @@ pub struct JobResult {
     pub lines: Vec<String>,
 }
 
-/// Run `job` in a child process. `Err` = the child died without delivering its result.
-pub fn spawn_job(job: &Value) -> Result<JobResult, String> {
+pub enum JobFailure {
+    /// the child died (signal / uncaught foreign panic): the simulator crashed
+    Crash(String),
+    /// the recording driver saw more decisions in ONE execution than any corpus program can need:
+    /// the simulator keeps scheduling ticks (it aborts itself with a marker)
+    Livelock(String),
+    /// wall-clock limit of the child exceeded: reported as a cap, never as a verdict
+    Timeout(u64),
+}
+
+fn child_timeout_s() -> u64 {
+    std::env::var("VF_SIM1_CHILD_TIMEOUT_S").ok().and_then(|v| v.parse().ok()).unwrap_or(2400)
+}
+
+/// Run `job` in a child process. `Err` = the child did not deliver its result.
+pub fn spawn_job(job: &Value) -> Result<JobResult, JobFailure> {
+    static SEQ: std::sync::atomic::AtomicUsize = std::sync::atomic::AtomicUsize::new(0);
     let exe = std::env::current_exe().expect("current_exe");
-    let out = std::process::Command::new(exe)
+    let dir = std::path::Path::new(env!("CARGO_MANIFEST_DIR")).join("target").join("vf_jobs");
+    let _ = std::fs::create_dir_all(&dir);
+    let tag = format!("{}_{}", std::process::id(), SEQ.fetch_add(1, std::sync::atomic::Ordering::SeqCst));
+    let (po, pe) = (dir.join(format!("{tag}.out")), dir.join(format!("{tag}.err")));
+    let mut child = std::process::Command::new(exe)
         .env("VF_SIM1_JOB", job.to_string())
-        .output()
+        .stdin(std::process::Stdio::null())
+        .stdout(std::fs::File::create(&po).expect("job stdout file"))
+        .stderr(std::fs::File::create(&pe).expect("job stderr file"))
+        .spawn()
         .unwrap_or_else(|e| crate::driver::machinery(&format!("cannot spawn a child process: {e}")));
-    let stdout = String::from_utf8_lossy(&out.stdout);
+    let start = std::time::Instant::now();
+    let limit = child_timeout_s();
+    let status = loop {
+        match child.try_wait() {
+            Ok(Some(st)) => break Some(st),
+            Ok(None) => {
+                if start.elapsed().as_secs() > limit {
+                    let _ = child.kill();
+                    let _ = child.wait();
+                    break None;
+                }
+                std::thread::sleep(std::time::Duration::from_millis(50));
+            }
+            Err(e) => crate::driver::machinery(&format!("waiting for a child process failed: {e}")),
+        }
+    };
+    let stdout = std::fs::read_to_string(&po).unwrap_or_default();
+    let err = String::from_utf8_lossy(&std::fs::read(&pe).unwrap_or_default()).into_owned();
+    let _ = std::fs::remove_file(&po);
+    let _ = std::fs::remove_file(&pe);
+    let Some(status) = status else {
+        return Err(JobFailure::Timeout(limit));
+    };
     let mut stats = None;
     let mut lines = vec![];
     for l in stdout.lines() {
@@ -62,18 +106,24 @@ pub fn spawn_job(job: &Value) -> Result<JobResult, String> {
             lines.push(l.to_string());
         }
     }
-    if out.status.code() == Some(2) {
+    if status.code() == Some(2) {
         // the child itself reported a machinery error
         print!("{stdout}");
         std::process::exit(2);
     }
     match stats {
-        Some(stats) if out.status.success() => Ok(JobResult { stats, lines }),
+        Some(stats) if status.success() => Ok(JobResult { stats, lines }),
         _ => {
-            let err = String::from_utf8_lossy(&out.stderr);
-            let interesting: Vec<&str> = err.lines().filter(|l| l.contains("panicked at") || l.contains("fatal runtime error") || l.starts_with("Simulator internal error") || l.contains("error")).take(6).collect();
+            if let Some(l) = err.lines().find(|l| l.contains("VF-LIVELOCK")) {
+                return Err(JobFailure::Livelock(l.to_string()));
+            }
+            let interesting: Vec<&str> = err
+                .lines()
+                .filter(|l| l.contains("panicked at") || l.contains("fatal runtime error") || l.starts_with("Simulator internal error"))
+                .take(4)
+                .collect();
             let msg = err.lines().skip_while(|l| !l.contains("panicked at")).nth(1).unwrap_or("").trim().to_string();
-            Err(format!("child process ended with {} ; {} ; {}", out.status, msg, interesting.join(" | ")))
+            Err(JobFailure::Crash(format!("child process ended with {status} ; {msg} ; {}", interesting.join(" | "))))
         }
     }
 }
@@ -112,15 +162,23 @@ pub fn job_main(spec: &str) -> ! {
 /// child dies, every program is re-run alone so that the crash is attributed to its program.
 /// A dead child becomes a violation `<prefix>/<program>/simulator-crash`.
 pub fn run_programs(kind: &str, specs: &[Value], prefix: &str) -> (Stats, Vec<String>) {
-    let crash_stats = |spec: &Value, crash: String| {
+    let failure_stats = |spec: &Value, f: JobFailure| {
         let name = spec["program"].as_str().unwrap_or("?");
         let mut st = Stats::new();
         st.eval();
-        st.violation(
-            format!("{prefix}/{name}/simulator-crash"),
-            format!("program {name}: the process simulating it died: {crash}"),
-            json!({"section": "crash", "job": kind, "spec": spec}),
-        );
+        match f {
+            JobFailure::Crash(crash) => st.violation(
+                format!("{prefix}/{name}/simulator-crash"),
+                format!("program {name}: the process simulating it died: {crash}"),
+                json!({"section": "crash", "job": kind, "spec": spec}),
+            ),
+            JobFailure::Livelock(l) => st.violation(
+                format!("{prefix}/{name}/simulator-livelock"),
+                format!("program {name}: one simulated execution never ends, the simulator keeps scheduling ticks: {l}"),
+                json!({"section": "crash", "job": kind, "spec": spec}),
+            ),
+            JobFailure::Timeout(s) => st.cap(format!("program {name}: child process killed after {s}s wall clock")),
+        }
         st
     };
     let group: Vec<Value> = specs.iter().filter(|s| s["solo"].as_bool() != Some(true)).cloned().collect();
@@ -133,8 +191,13 @@ pub fn run_programs(kind: &str, specs: &[Value], prefix: &str) -> (Stats, Vec<St
                 total.merge(r.stats);
                 lines.extend(r.lines);
             }
-            Err(crash) => {
-                println!("  note: the child running {} programs together died ({crash}); re-running each program alone", group.len());
+            Err(f) => {
+                let why = match &f {
+                    JobFailure::Crash(c) => c.clone(),
+                    JobFailure::Livelock(l) => l.clone(),
+                    JobFailure::Timeout(s) => format!("killed after {s}s"),
+                };
+                println!("  note: the child running {} programs together did not finish ({why}); re-running each program alone", group.len());
                 solo.splice(0..0, group);
             }
         }
@@ -145,7 +208,7 @@ pub fn run_programs(kind: &str, specs: &[Value], prefix: &str) -> (Stats, Vec<St
                 total.merge(r.stats);
                 lines.extend(r.lines);
             }
-            Err(crash) => total.merge(crash_stats(spec, crash)),
+            Err(f) => total.merge(failure_stats(spec, f)),
         }
     }
     (total, lines)
@@ -162,9 +225,13 @@ pub fn replay_crash(case: &Value) -> bool {
             }
             !r.stats.violations.is_empty()
         }
-        Err(crash) => {
-            println!("replay: VIOLATION the simulating process died: {crash}");
+        Err(JobFailure::Crash(c)) | Err(JobFailure::Livelock(c)) => {
+            println!("replay: VIOLATION the simulating process died / never finished: {c}");
             true
+        }
+        Err(JobFailure::Timeout(s)) => {
+            println!("replay: the child was killed after {s}s without a result");
+            false
         }
     }
 }
